@@ -642,7 +642,7 @@ def retry_kwargs(env: Env, cfg: dict, *, place: str = "call", atimeout: bool = F
         budget=env.make_budget(cfg["budget"], cfg.get("bW", 100000)) if cfg["budget"] != NONE else None,
     )
     _ = EC
-    if env.flavours:
+    if getattr(env, "flavours", None):
         # any Mapping will do for the two tables
         from types import MappingProxyType
         for key in ("strategies", "per_class_max_attempts"):
